@@ -683,19 +683,37 @@ def translate_simple(fn, lean_name, params, ret_type, **kw):
     return f'@[reducible] def {lean_name} {sig} : {ret_type} :=\n  {v}\n'
 
 
-def translate_function(fn, lean_name, params, record, fields, struct, consts=None, helpers=None, externs=None):
-    """-> dict(lean=<def text>, consts=[names used])"""
+def translate_function(fn, lean_name, params, record, fields, struct, consts=None, helpers=None, externs=None, until=None):
+    """-> dict(lean=<def text>, consts=[names used]).
+    until = None: the whole function, which must end in `return <record>`.
+    until = predicate on a statement: PREFIX mode - the top-level statements before the first one satisfying it; the result
+    is the record of the LOCALS named by `fields` at that point (record = None; says nothing about what follows)."""
     got = [a.arg for a in fn.args.args]
     if got != [n for n, _ in params] or fn.args.vararg or fn.args.kwarg or fn.args.kwonlyargs:
         raise Untranslatable(f'{fn.name}: parameters {got}')
-    # the record may only occur as R['k'] / R = {...} / return R
-    for n in ast.walk(fn):
-        if isinstance(n, (ast.FunctionDef, ast.Lambda, ast.Global, ast.Nonlocal, ast.While, ast.For, ast.Try, ast.With)) and n is not fn:
-            raise Untranslatable(f'statement {type(n).__name__}')
+    stmts = list(fn.body)
+    if until is not None:
+        cut = [k for k, st in enumerate(stmts) if until(st)]
+        if len(cut) != 1:
+            raise Untranslatable(f'{fn.name}: expected exactly one statement ending the translated prefix, found {len(cut)}')
+        stmts = stmts[:cut[0]]
+    for st in stmts:
+        for n in ast.walk(st):
+            if isinstance(n, (ast.FunctionDef, ast.Lambda, ast.Global, ast.Nonlocal, ast.While, ast.For, ast.Try, ast.With, ast.Return if until else ast.While)):
+                raise Untranslatable(f'statement {type(n).__name__}')
     tr = BTr(params, consts=consts, helpers=helpers, externs=externs, record=record, fields=fields)
+
     def end():
-        raise Untranslatable('control reaches the end of the function without return')
+        if until is None:
+            raise Untranslatable('control reaches the end of the function without return')
+        items = []
+        for key, kind in fields:
+            t = tr.env.get(key)
+            if t is None or t == POISON:
+                raise Untranslatable(f'local {key} is not set (or has different types) on all paths reaching the end of the prefix')
+            items.append(f'{key} := {field_value(key, t, kind, key)}')
+        return 'some { ' + ', '.join(items) + ' }'
     tr.top_kont = end
-    body = tr.block(list(fn.body), end)
+    body = tr.block(stmts, end)
     sig = ' '.join(f'({n} : {t})' for n, t in params)
     return dict(lean=f'def {lean_name} {sig} : Option {struct} :=\n{indent(body)}\n', consts=tr.used_consts)
